@@ -237,6 +237,8 @@ def run(e, cfg):
         c14t(sink, cfg, sym_mk(e, cfg), lambda v: v)
     elif k == "time-c18pair":
         c18pair(sink, cfg, sym_mk(e, cfg), lambda v: v)
+    elif k == "time-c18parse":
+        c18parse(sink, cfg, sym_mk(e, cfg), lambda v: v)
     else:
         raise E.ModelGap("unknown time harness %s" % k)
 
@@ -278,6 +280,8 @@ def replay(cfg, inputs, check, info, tag):
             c14t(sink, cfg, mk, lambda v: Fraction(v))
         elif k == "time-c18pair":
             c18pair(sink, cfg, mk, lambda v: Fraction(v))
+        elif k == "time-c18parse":
+            c18parse(sink, cfg, mk, lambda v: Fraction(v))
     except Exception as ex:
         import traceback
 
@@ -714,6 +718,7 @@ def c18_configs(tier):
                 base.append(d)
     for dt in (2, 3):
         base.append(dict(name="c18pair-week-range-dt%d" % dt, kind="time-c18pair", unit="week", dt=dt, span=5, weight=40, ylo=2021, yhi=2021, res="h", pair=True))
+    base.append(dict(name="c18parse-datum-time", kind="time-c18parse", unit="parse", op="parse_items", weight=3, res="min"))
     for tag, upd in tz_models():
         for c in base:
             if c["kind"] in ("time-c16", "time-c14") and tag == "const" and c["name"].endswith(("tzanchor1", "tzanchor2", "tzanchor3", "tzanchor4")):
@@ -731,6 +736,24 @@ def c18_configs(tier):
                 d["shards"] = 8
             out.append(d)
     return out
+
+
+def c18parse(sink, cfg, mk, num):
+    """the time of a datum survives Timeline.parse_items exactly as supplied (a naive wall-clock value), whatever the local zone:
+    the entry point of every exported timeline; a datetime, and a date promoted to midnight"""
+    from labella.timeline import Timeline
+
+    t = mk("t")
+    tl = object.__new__(Timeline)
+    tl.options = {"latex": {"fontsize": "11pt", "preamble": "", "latexmkOptions": ""}}
+    tl.textFn = lambda d: None
+    d = {"time": t, "width": 50}
+    items = tl.parse_items([d])
+    got = items[0].time
+    us = lambda x: x.us if hasattr(x, "us") else _RealDT(x).us
+    sink.check("datum-time-kept-as-supplied", And(us(got) == us(t)), info="parse_items")
+    got2 = d["time"]
+    sink.check("datum-dict-time-kept-as-supplied", And(us(got2) == us(t)), info="parse_items")
 
 
 def c18pair(sink, cfg, mk, num):
